@@ -39,6 +39,7 @@ from octave_mcp.core.constraints import (
     RequiredConstraint,
     TypeConstraint,
 )
+from octave_mcp.core.emitter import emit_value
 
 if TYPE_CHECKING:
     from octave_mcp.core.schema_extractor import SchemaDefinition
@@ -420,7 +421,9 @@ class GBNFCompiler:
         Returns:
             GBNF alternation: ("value1" | "value2" | "value3")
         """
-        escaped = [self._escape_literal(v) for v in constraint.allowed_values]
+        # Spell each value the way the canonical emitter would, so that the OCTAVE reader
+        # returns it as the same text (a value like "true" or "in progress" must be quoted)
+        escaped = [self._escape_literal(emit_value(v)) for v in constraint.allowed_values]
         quoted = [f'"{v}"' for v in escaped]
         return f"({' | '.join(quoted)})"
 
@@ -433,7 +436,9 @@ class GBNFCompiler:
         Returns:
             GBNF literal: "value"
         """
-        value = str(constraint.const_value)
+        # Spell the constant the way the canonical emitter would, so that the OCTAVE reader
+        # returns the same value with the same type (CONST["true"] is a string, not a boolean)
+        value = emit_value(constraint.const_value)
         escaped = self._escape_literal(value)
         return f'"{escaped}"'
 
